@@ -103,3 +103,78 @@ func ruleDstOwnership(p *Prog, r *Report, rule string) {
 	}
 	r.Check(n >= 5, "leveldb", "sites", "getOverlaps call sites", fmt.Sprintf("%d", n), "")
 }
+
+// ruleOverlapResultOwned: the table sets returned by tFiles.getOverlaps are appended to by their
+// callers (compaction.expand: append(t0, t1...)). They must therefore be storage the caller owns —
+// a fresh slice or the dst it passed in — never a sub-slice of the level itself (tf[begin:end]
+// has spare capacity that IS the following tables of the live version's level).
+func ruleOverlapResultOwned(p *Prog, r *Report, rule string) {
+	r.Begin(rule, "E-FLOW", "tFiles.getOverlaps returns caller-owned storage: every returned value is nil, a fresh make (filled by copy), or built by append onto the caller's dst — never a sub-slice of the receiver (the live level), to which callers append", 2)
+	defer r.End()
+	fn := resolveFn(p, r, "leveldb", "tFiles.getOverlaps")
+	if fn == nil {
+		return
+	}
+	var recv *ssa.Parameter
+	if len(fn.Params) > 0 {
+		recv = fn.Params[0]
+	}
+	owned := func(v ssa.Value, _ int) bool {
+		seen := map[ssa.Value]bool{}
+		var rec func(v ssa.Value) bool
+		rec = func(v ssa.Value) bool {
+			v = stripConv(v)
+			if seen[v] {
+				return true
+			}
+			seen[v] = true
+			switch x := v.(type) {
+			case *ssa.Const:
+				return x.Value == nil
+			case *ssa.MakeSlice:
+				return true
+			case *ssa.Parameter:
+				return x != recv && x.Name() == "dst"
+			case *ssa.Slice:
+				return rec(x.X)
+			case *ssa.Phi:
+				for _, e := range x.Edges {
+					if !rec(e) {
+						return false
+					}
+				}
+				return true
+			case *ssa.Call:
+				if isCallTo(x, "builtin:append") {
+					return rec(x.Call.Args[0])
+				}
+			case *ssa.UnOp:
+				// a local cell
+				sts := cellStores(x.X)
+				if len(sts) == 0 {
+					return false
+				}
+				for _, st := range sts {
+					if !rec(st) {
+						return false
+					}
+				}
+				return true
+			}
+			return false
+		}
+		return rec(v)
+	}
+	n := 0
+	instrs(fn, func(_ *ssa.BasicBlock, _ int, in ssa.Instruction) {
+		ret, ok := in.(*ssa.Return)
+		if !ok || len(ret.Results) != 1 {
+			return
+		}
+		n++
+		r.Site(1)
+		v := retValue(ret, ret.Results[0])
+		r.Check(owned(v, 8), fnName(fn), "result-owned@"+branchLabel(ret), "the returned table set is caller-owned storage", "the value returned at "+p.Pos(ret.Pos())+" can be a sub-slice of the level itself: a caller's append(t0, t1...) then overwrites the following tables of the live version", p.Pos(ret.Pos()))
+	})
+	r.Check(n >= 2, fnName(fn), "returns", "getOverlaps has its return sites", fmt.Sprintf("%d", n), p.Pos(fn.Pos()))
+}
